@@ -433,6 +433,8 @@ class ImageBatch(DataTensor):
 
     def narrow(self: TImageBatch, dim: int, start: int, length: int) -> TImageBatch:
         r"""Narrow image batch along specified tensor dimension."""
+        if start < 0:
+            start += self.shape[dim]  # torch.narrow() counts a negative start from the end
         data = self.tensor().narrow(dim, start, length)
         grid = self._grid
         if dim > 1:
